@@ -53,7 +53,7 @@ func readResponsesFor(out []byte, methods []string) ([]c16Resp, []byte, error) {
 func init() {
 	Register(&Prop{
 		ID: "C16", NoShrink: true,
-		Rule: "te: ServeConn pipelines where some handlers call TimeoutError (some after asking for a hijack, with or without HijackSetNoResponse; some leaving a streamed 9000-byte request body unread, after which nothing more may be served) and keep mutating the ctx (GET/HEAD/POST, HTTP/1.0 keep-alive and 1.1) followed by ordinary requests; " +
+		Rule: "te: ServeConn pipelines where some handlers call TimeoutError (some after asking for a hijack, with or without HijackSetNoResponse; some answering through TimeoutErrorWithResponse(&ctx.Response) and then rewriting that response in place; some leaving a streamed 9000-byte request body unread, after which nothing more may be served) and keep mutating the ctx (GET/HEAD/POST, HTTP/1.0 keep-alive and 1.1) followed by ordinary requests; " +
 			"wrap: Serve + TimeoutHandler(120ms) with inner handlers parked on gates past the deadline that afterwards rewrite status, headers and body, released by the NEXT request's handler so that late writes race with the next response; " +
 			"conc: Concurrency N with N+1 connections holding slow wrapped handlers; wrapc: Concurrency 1..2, one connection, handlers that outlive their timeout and keep running while later requests arrive (status sequence = the Lean semaphore model, peak running <= N); monitor: timed-out requests get exactly the timeout status/message (no body for HEAD), no late write on the wire, later requests answered normally, " +
 			"at most N wrapped handlers inside, excess get 429; non-trivial = at least one timed-out request followed by another request; distinct = distinct input",
@@ -81,6 +81,13 @@ func init() {
 						ver, extra = "HTTP/1.0", "Connection: keep-alive\r\n"
 					}
 					q := fmt.Sprintf("body=own%d", i)
+					selfResp := len(f) > 3 && f[3] == "s" && f[2] != "1"
+					if selfResp {
+						q = fmt.Sprintf("ters=%d", i)
+						if i+1 < len(toks) {
+							nt = true
+						}
+					}
 					if f[2] == "1" {
 						// f[3] (optional): the handler asks for a hijack (h) / a hijack without response (n) BEFORE it times out;
 						// the request of the abandoned ctx must be ignored
@@ -112,6 +119,9 @@ func init() {
 					exp := fmt.Sprintf("200:own%d", i)
 					if f[2] == "1" {
 						exp = "408:timed out!"
+					}
+					if selfResp {
+						exp = fmt.Sprintf("200:so-far-%d-0123456789abcdef", i)
 					}
 					if m == "HEAD" {
 						exp = exp[:4]
@@ -428,6 +438,8 @@ func init() {
 						tk += "|" + r.Pick([]string{"h", "n"})
 					} else if strings.HasPrefix(tk, "P|") && r.Chance(20) {
 						tk += "|u"
+					} else if strings.HasSuffix(tk, "|0") && r.Chance(20) {
+						tk += "|s"
 					}
 					toks = append(toks, tk)
 				}
